@@ -681,3 +681,21 @@ package ion
 //@ modifies r.annotations, r.bits.pos, r.bits.state, r.bits.code, r.bits.null, r.bits.len, vcStreamOf(r.bits.in).cur
 //@ ensures[C03,C06] err == nil ==> brLocal(r) && r.bits.state == bssBeforeValue
 //@ safe[C06]
+
+//@ func (*binaryReader).Next
+//@ requires brInv(r)
+//@ invariant loop0 [done bool] brLocal(r) && r.err == nil && (done || (r.valueType == NoType && r.value == nil && !r.eof))
+//@ invariant loop0 bsNested(&r.bits)
+//@ modifies r.err, r.eof, r.lst, r.fieldName, r.annotations, r.valueType, r.value, r.ctx.arr, r.bits.pos, r.bits.state, r.bits.code, r.bits.null, r.bits.len, r.bits.stack.arr, vcStreamOf(r.bits.in).cur
+//@ ensures[C07] old(r.err) != nil ==> !result && r.err == old(r.err) && r.valueType == old(r.valueType) && r.bits.pos == old(r.bits.pos) && r.eof == old(r.eof)
+//@ ensures[C08] old(r.eof) ==> !result && r.bits.pos == old(r.bits.pos) && r.valueType == old(r.valueType) && r.eof
+//@ ensures[C03,C06,C07] r.err == nil ==> brLocal(r)
+//@ ensures[C03,C06,C07] r.err == nil ==> bsNested(&r.bits)
+//@ ensures[C07] result ==> r.err == nil && !r.eof
+//@ ensures[C07] !result ==> r.eof || r.err != nil
+//@ safe[C06]
+
+//@ func (*reader).Err
+//@ modifies nothing
+//@ ensures[C07] result == r.err
+//@ safe[C06]
